@@ -528,6 +528,8 @@ fn c27_scenario(ctx: &mut Ctx, prog: &Prog, events: &[Event], cap: usize, pol: &
         ctx.case(&op, &res);
     }
     ctx.count(&format!("c27:contexts-{}", prog.nctx));
+    // (an incomplete checkpoint: the phase above ran until nothing could move)
+    ctx.case("end", if completed { "complete" } else { "incomplete" });
     if !completed {
         // a barrier did not fit into a full inbox: the checkpoint never completes (no cut to judge)
         ctx.count("c27:checkpoint-incomplete");
@@ -543,7 +545,7 @@ fn c27_scenario(ctx: &mut Ctx, prog: &Prog, events: &[Event], cap: usize, pol: &
         }
     }
     if snap_at.len() != prog.nctx {
-        ctx.case("restore -", "checkpoint-lacks-a-context");
+        ctx.case("restore CKPT:every-context", "CKPT:lacks-a-context");
         return;
     }
     // outputs are paired with the forward records in order
